@@ -3,10 +3,12 @@ use crate::engine::Property;
 
 pub mod c04;
 pub mod c05;
+pub mod c07;
 pub mod c08;
+pub mod c11;
 
 pub fn all() -> Vec<&'static dyn Property> {
-    vec![&c04::C04, &c05::C05, &c04::C06, &c08::C08]
+    vec![&c04::C04, &c05::C05, &c04::C06, &c07::C07, &c08::C08, &c11::C11]
 }
 
 pub fn by_id(id: &str) -> Option<&'static dyn Property> {
